@@ -123,16 +123,15 @@ theorem validTpl_spec {t : Spec.Tex.Tex} (h : Spec.Tex.validTpl t = true) :
     tplDecodeImage 2 t.palette 9 t.height t.width t.payload = .ok (pixelsOfTpl t) := by
   simp only [Spec.Tex.validTpl, Bool.and_eq_true, decide_eq_true_eq, beq_iff_eq, pad_4, pad_8] at h
   obtain ⟨⟨⟨⟨⟨⟨⟨⟨⟨⟨⟨hfmt, hw1⟩, hh1⟩, _⟩, _⟩, hsz⟩, heven⟩, h2⟩, _⟩, hall⟩, _⟩, _⟩ := h
-  rw [Array.all_eq_true] at hall
-  have hidx : ∀ k, (t.payload.getD k 0).toNat < t.palette.size / 2 := by
-    intro k
-    by_cases hk : k < t.payload.size
-    · have := hall k hk
-      simp only [decide_eq_true_eq] at this
-      simpa [Array.getD, hk] using this
-    · simp [Array.getD, hk]; omega
-  obtain ⟨out, hdec, _, _⟩ := ci8_decode t.palette t.payload t.width t.height (by omega) (by omega) heven hsz
-    (fun x y _ _ => hidx _)
+  have hidx : ∀ x y, x < t.width → y < t.height →
+      (t.payload.getD (Spec.Morton.ci8Offset (Spec.Morton.pad8 t.width) x y) 0).toNat < t.palette.size / 2 := by
+    intro x y hx hy
+    rw [List.all_eq_true] at hall
+    have h1 := hall y (List.mem_range.mpr hy)
+    rw [List.all_eq_true] at h1
+    have h2 := h1 x (List.mem_range.mpr hx)
+    simpa using h2
+  obtain ⟨out, hdec, _, _⟩ := ci8_decode t.palette t.payload t.width t.height (by omega) (by omega) heven hsz hidx
   have hp4 : 4 ≤ (t.height + 3) / 4 * 4 := by omega
   have hp8 : 8 ≤ Spec.Morton.pad8 t.width := by unfold Spec.Morton.pad8; omega
   refine ⟨hfmt, ?_, ?_, by omega, ?_⟩
